@@ -463,7 +463,8 @@ def key_params_of_site(b, i, kind, f):
             return _byte_params(b, prov.operand_origins(b, t["a"][1], deep=True).params())
         return set()
     # payload: receiver derives from a get_mut/get on the shard map; take that call's key operand
-    P = prov.operand_origins(b, t["a"][0], stop_calls=re.compile(SHARD_MAP))
+    shared.from_dataset(b, t["a"][0])          # initialises the pass-through table
+    P = prov.operand_origins(b, t["a"][0], stop_calls=re.compile(SHARD_MAP), pass_through=shared._DATASET_PT)
     ks = set()
     for r in P.roots:
         if r[0] == "call" and re.search(SHARD_MAP, r[1]):
